@@ -92,6 +92,35 @@ class SimFS:
         self._emit(parent, name, Mask.CLOSE_WRITE)
         self._log(actor, "write", self.rel(ap), hashlib.sha256(content).hexdigest()[:16])
 
+    def replace_preserving(self, actor, path, content):
+        """Replace a file as `rsync -t` or `cp -p new tmp && mv tmp path` do.
+
+        The new content arrives under a temporary name in the same directory, gets the mode
+        and the time stamps of the file it replaces and is renamed over it: afterwards the
+        path has a new inode and possibly the same size, with mode and mtime unchanged.
+        """
+        ap = self._abs(path)
+        if isinstance(content, str):
+            content = content.encode()
+        st = os.stat(ap)
+        parent, name = os.path.split(ap)
+        tname = f".{name}.tmp~"
+        tmp = os.path.join(parent, tname)
+        with open(tmp, "wb") as fh:
+            fh.write(content)
+        os.chmod(tmp, statmod.S_IMODE(st.st_mode))
+        os.utime(tmp, ns=(st.st_atime_ns, st.st_mtime_ns))
+        os.rename(tmp, ap)
+        self.writes += 1
+        self._emit(parent, tname, Mask.CREATE)
+        self._emit(parent, tname, Mask.MODIFY)
+        self._emit(parent, tname, Mask.CLOSE_WRITE)
+        self._emit(parent, tname, Mask.ATTRIB)
+        cookie = self.world.next_cookie()
+        self._emit(parent, tname, Mask.MOVED_FROM, cookie)
+        self._emit(parent, name, Mask.MOVED_TO, cookie)
+        self._log(actor, "write", self.rel(ap), hashlib.sha256(content).hexdigest()[:16], "replace-preserving")
+
     def touch_same(self, actor, path):
         """Rewrite a file with its own content (new mtime, same bytes)."""
         ap = self._abs(path)
